@@ -8,15 +8,25 @@
 //     recognisable;
 //   - removing the top version restores every read (all keys x all versions) to the result observed before it was added;
 //   - after Trash(v) every key's newest write and every write at a version > v is still readable at its own version;
-//     reads still never return another key's value.
+//     reads still never return another key's value;
+//   - a version's write list is applied in order: when it names a key more than once the last occurrence is that
+//     version's write ("most recent write"). This is what AddMVCC (records emitted in list order), SetV and MVCCIter's
+//     last-value records do on the unchanged tree; the block executor de-duplicates before the mvcc plugin, so this is
+//     API-level behaviour;
+//   - MVCCIter: Iterator lists exactly the keys whose most recent write at the top version is a value, with that value.
 //
-// Values are never empty (the list layer treats an empty value as a deletion marker).
+// Records are applied the way the local-DB write path does: a nil value deletes the record, anything else is stored.
+// A write with a nil / empty value is a deletion. On the unchanged tree GetV does not see it (it returns the older value)
+// while MVCCIter's Iterator drops the key, and DelMVCC of a later version then restores the older value into the Iterator
+// view. The property text would make such a read not-found; neither behaviour is asserted: for a key with a deletion in
+// its live history a read may be not-found or the older value, but never a value that was overwritten within its version.
 package c09
 
 import (
 	"crypto/sha256"
 	"fmt"
 	"os"
+	"sort"
 	"strings"
 	"testing"
 
@@ -43,14 +53,67 @@ func TestMain(m *testing.M) {
 // version; plus unrelated keys.
 var family = []string{"k", "k.", "k.0", "k.5", "k.00000000000000000001", "k-", "k-x", "k!", "k,", "k/", "k0", "kk", "x", "x.y"}
 
+// plainFamily (MVCCIter cases): prefix-related keys without a "<key>." extension, so that the listed GetV finding cannot
+// interfere with MVCCIter.DelMVCC, which restores last values through GetV.
+var plainFamily = []string{"k", "k-", "k0", "kk", "x", "y"}
+
+// entry is one element of a version's write list. Its value is "<key>@<version>#<position in the list>" unless Del is set.
+type entry struct {
+	K   string `json:"k"`
+	Del string `json:"del,omitempty"` // "nil": nil value, "empty": []byte{}
+}
+
 type op struct {
-	Op   string   `json:"op"` // add | deltop
-	Keys []string `json:"keys,omitempty"`
+	Op      string  `json:"op"`            // add | deltop
+	Via     string  `json:"via,omitempty"` // add: "" = AddMVCC + write of its records, "setv" = SetVersion + SetV per entry
+	Entries []entry `json:"entries,omitempty"`
 }
 
 type kase struct {
 	Backend string `json:"backend"`
+	Iter    bool   `json:"iter,omitempty"` // MVCCIter (last-value records + Iterator) instead of MVCCHelper
 	Ops     []op   `json:"ops"`
+}
+
+func keysOp(keys ...string) op {
+	o := op{Op: "add"}
+	for _, k := range keys {
+		o.Entries = append(o.Entries, entry{K: k})
+	}
+	return o
+}
+
+// genEntries: 1..6 distinct keys; with probability 1/dupOneIn one or two of them are repeated (2-3 occurrences in total,
+// positions shuffled); every entry is a deletion with probability 1/6 (so repeated keys give delete-then-set and
+// set-then-delete within one version).
+func genEntries(t *rapid.T, fam []string, dupOneIn int) []entry {
+	perm := rapid.Permutation(fam).Draw(t, "keys")
+	max := 6
+	if len(fam) < max {
+		max = len(fam)
+	}
+	var es []entry
+	for _, k := range perm[:rapid.IntRange(1, max).Draw(t, "nkeys")] {
+		es = append(es, entry{K: k})
+	}
+	if rapid.IntRange(1, dupOneIn).Draw(t, "dup") == 1 {
+		for j, nd := 0, rapid.IntRange(1, 2).Draw(t, "ndupkeys"); j < nd; j++ {
+			k := es[rapid.IntRange(0, len(es)-1).Draw(t, "dupkey")].K
+			for x, extra := 0, rapid.IntRange(1, 2).Draw(t, "extra"); x < extra; x++ {
+				es = append(es, entry{K: k})
+			}
+		}
+		es = rapid.Permutation(es).Draw(t, "order")
+	}
+	for i := range es {
+		switch rapid.IntRange(0, 11).Draw(t, "del") {
+		case 0:
+			es[i].Del = "nil"
+		case 1:
+			es[i].Del = "empty"
+		}
+	}
+	return es
 }
 
 func genCase(t *rapid.T) kase {
@@ -66,8 +129,32 @@ func genCase(t *rapid.T) kase {
 		if top >= 12 {
 			continue
 		}
-		perm := rapid.Permutation(family).Draw(t, "keys")
-		c.Ops = append(c.Ops, op{Op: "add", Keys: perm[:rapid.IntRange(1, 6).Draw(t, "nkeys")]})
+		o := op{Op: "add", Entries: genEntries(t, family, 3)}
+		if rapid.IntRange(0, 7).Draw(t, "via") == 0 {
+			o.Via = "setv"
+		}
+		c.Ops = append(c.Ops, o)
+		top++
+	}
+	return c
+}
+
+// genIterCase: MVCCIter chains over plainFamily; version 0 is never removed (MVCCIter.DelMVCC does not touch the last-value
+// records for version 0; the genesis version is never rolled back).
+func genIterCase(t *rapid.T) kase {
+	c := kase{Backend: "memdb", Iter: true}
+	n := rapid.IntRange(2, 14).Draw(t, "nops")
+	top := -1
+	for i := 0; i < n; i++ {
+		if top >= 1 && rapid.IntRange(0, 2).Draw(t, "del") == 0 {
+			c.Ops = append(c.Ops, op{Op: "deltop"})
+			top--
+			continue
+		}
+		if top >= 10 {
+			continue
+		}
+		c.Ops = append(c.Ops, op{Op: "add", Entries: genEntries(t, plainFamily, 2)})
 		top++
 	}
 	return c
@@ -76,21 +163,55 @@ func genCase(t *rapid.T) kase {
 // ---- model ------------------------------------------------------------------------------------------------------
 
 type write struct {
-	ver int64
-	val string
+	ver  int64
+	val  string
+	tomb bool // the version's last write to the key was a deletion (nil / empty value)
 }
-type model map[string][]write // per key, ascending versions
+type model map[string][]write // per key, ascending versions, one entry per (key, version): the last occurrence
 
-func tag(k string, v int64) string { return fmt.Sprintf("%s@%d", k, v) }
+func tag(k string, v int64, pos int) string { return fmt.Sprintf("%s@%d#%d", k, v, pos) }
 
-func (m model) getV(k string, v int64) (string, bool) {
+// getV: the most recent value write at a version <= v; tombAbove reports a deletion more recent than it (and <= v).
+func (m model) getV(k string, v int64) (val string, found, tombAbove bool) {
 	ws := m[k]
 	for i := len(ws) - 1; i >= 0; i-- {
-		if ws[i].ver <= v {
-			return ws[i].val, true
+		if ws[i].ver > v {
+			continue
+		}
+		if ws[i].tomb {
+			tombAbove = true
+			continue
+		}
+		return ws[i].val, true, tombAbove
+	}
+	return "", false, tombAbove
+}
+
+// apply records a version's write list in order: the last occurrence of a key wins.
+func (m model) apply(ver int64, es []entry) (dup, delThenSet, setThenDel bool) {
+	seen := map[string]write{}
+	for pos, e := range es {
+		w := write{ver: ver, val: tag(e.K, ver, pos), tomb: e.Del != ""}
+		if old, ok := seen[e.K]; ok {
+			dup = true
+			delThenSet = delThenSet || (old.tomb && !w.tomb)
+			setThenDel = setThenDel || (!old.tomb && w.tomb)
+			m[e.K][len(m[e.K])-1] = w
+		} else {
+			m[e.K] = append(m[e.K], w)
+		}
+		seen[e.K] = w
+	}
+	return
+}
+
+func (m model) hasTomb(k string) bool {
+	for _, w := range m[k] {
+		if w.tomb {
+			return true
 		}
 	}
-	return "", false
+	return false
 }
 
 func (m model) clone() model {
@@ -111,6 +232,28 @@ type store struct {
 	db  dbm.DB
 	dir string
 	mv  *dbm.MVCCHelper
+	it  *dbm.MVCCIter // same store seen through MVCCIter (iter cases)
+}
+
+// write applies records the way the local-DB write path does: a nil value deletes the record.
+func (s *store) write(recs []*types.KeyValue) {
+	for _, kv := range recs {
+		if kv.Value == nil {
+			_ = s.db.Delete(kv.Key) // deleting an absent record is not an error on the real (batch) write path
+		} else if err := s.db.Set(kv.Key, kv.Value); err != nil {
+			lib.Inconclusive("db.Set: %v", err)
+		}
+	}
+}
+
+func (e entry) value(ver int64, pos int) []byte {
+	switch e.Del {
+	case "nil":
+		return nil
+	case "empty":
+		return []byte{}
+	}
+	return []byte(tag(e.K, ver, pos))
 }
 
 func newStore(backend string) *store {
@@ -129,7 +272,8 @@ func newStore(backend string) *store {
 		m, _ := dbm.NewGoMemDB("c09", "", 0)
 		s.db = m
 	}
-	s.mv = dbm.NewMVCC(s.db)
+	s.it = dbm.NewMVCCIter(s.db)
+	s.mv = s.it.MVCCHelper
 	return s
 }
 
@@ -162,10 +306,19 @@ type runner struct {
 	c     kase
 	step  int
 	stats struct {
-		ntPairs                      map[string]bool
-		foreignTolerated, trashTol   int
-		trashDeleted, deltops, reads int
+		ntPairs                            map[string]bool
+		foreignTolerated, trashTol         int
+		trashDeleted, deltops, reads       int
+		dup, delThenSet, setThenDel, setv  bool
+		tombOlder, tombNotFound, iterReads int
 	}
+}
+
+func (r *runner) keys() []string {
+	if r.c.Iter {
+		return plainFamily
+	}
+	return family
 }
 
 func (r *runner) fail(format string, a ...interface{}) {
@@ -179,10 +332,10 @@ func (r *runner) fail(format string, a ...interface{}) {
 // readTable reads every key at every version 0..top+1, compares with the model and returns the rendered table.
 func (r *runner) readTable(mv *dbm.MVCCHelper, m model, top int64, ctx string) []string {
 	var table []string
-	for _, k := range family {
+	for _, k := range r.keys() {
 		for v := int64(0); v <= top+1; v++ {
 			got, err := mv.GetV([]byte(k), v)
-			want, found := m.getV(k, v)
+			want, found, tombAbove := m.getV(k, v)
 			r.stats.reads++
 			cell := "-"
 			if err == nil {
@@ -190,12 +343,19 @@ func (r *runner) readTable(mv *dbm.MVCCHelper, m model, top int64, ctx string) [
 			}
 			table = append(table, cell)
 			if (err == nil) == found && (!found || string(got) == want) {
+				if tombAbove && found {
+					r.stats.tombOlder++ // the deletion is not seen by GetV: the older value is returned (not asserted either way)
+				}
 				continue
 			}
 			// mismatch: does it match the signature of the listed finding "value / version of a key k' = k + '.' + s"?
 			if lib.Known(knownGetV) && r.foreignSignature(m, k, string(got), err, found) {
 				lib.ExcludedKnown(knownGetV)
 				r.stats.foreignTolerated++
+				continue
+			}
+			if tombAbove && err != nil {
+				r.stats.tombNotFound++ // the deletion is the most recent write: not-found is what the property text says
 				continue
 			}
 			r.fail("%s: GetV(%q,%d) = %q err=%v, model %q found=%v", ctx, k, v, got, err, want, found)
@@ -225,11 +385,17 @@ func (r *runner) noteNonTrivial(m model) {
 	for a := range family {
 		for b := range family {
 			ka, kb := family[a], family[b]
-			if len(kb) <= len(ka) || !strings.HasPrefix(kb, ka) || !strings.ContainsRune(".-!,/0123456789", rune(kb[len(ka)])) || len(m[kb]) == 0 {
+			if len(kb) <= len(ka) || !strings.HasPrefix(kb, ka) || !strings.ContainsRune(".-!,/0123456789", rune(kb[len(ka)])) {
 				continue
 			}
-			if _, found := m.getV(ka, m[kb][0].ver); !found {
-				r.stats.ntPairs[ka+"|"+kb] = true
+			for _, w := range m[kb] {
+				if w.tomb {
+					continue
+				}
+				if _, found, _ := m.getV(ka, w.ver); !found {
+					r.stats.ntPairs[ka+"|"+kb] = true
+				}
+				break
 			}
 		}
 	}
@@ -250,13 +416,17 @@ func (r *runner) trashAt(s *store, m model, top, cut int64) {
 	for _, k := range family {
 		ws := m[k]
 		for i, w := range ws {
+			if w.tomb {
+				after[k] = append(after[k], w) // deletions stay in the model: reads above them remain lenient
+				continue
+			}
 			got, err := c.mv.GetV([]byte(k), w.ver) // exact probe of the record (k, w.ver)
 			if err == nil && string(got) == w.val {
 				after[k] = append(after[k], w)
 				continue
 			}
 			r.stats.trashDeleted++
-			newest := i == len(ws)-1
+			newest := i == len(ws)-1 // a deletion above it makes the deletion the key's newest version
 			if !newest && w.ver <= cut {
 				continue // an old version at or below the cut: Trash may remove it
 			}
@@ -294,6 +464,69 @@ func trashSignature(m model, k string, ver int64) bool {
 	return false
 }
 
+type liveVersion struct {
+	hash []byte
+	via  string
+	keys []string // distinct keys written (setv versions are removed key by key)
+}
+
+// iterTable reads MVCCIter.Iterator (whole range forward and backward, and the keys with prefix "k") and compares it with
+// the model at the top version.
+func (r *runner) iterTable(s *store, m model, top int64, ctx string) {
+	for _, q := range []struct {
+		start   string
+		reverse bool
+	}{{"", false}, {"", true}, {"k", false}} {
+		var start []byte
+		if q.start != "" {
+			start = []byte(q.start)
+		}
+		it := s.it.Iterator(start, nil, q.reverse)
+		got, order := map[string]string{}, []string{}
+		for it.Rewind(); it.Valid(); it.Next() {
+			got[string(it.Key())] = string(it.Value())
+			order = append(order, string(it.Key()))
+		}
+		it.Close()
+		r.stats.iterReads++
+		sorted := append([]string(nil), order...)
+		sort.Strings(sorted)
+		if q.reverse {
+			sort.Sort(sort.Reverse(sort.StringSlice(sorted)))
+		}
+		if fmt.Sprint(sorted) != fmt.Sprint(order) || len(got) != len(order) {
+			r.fail("%s: Iterator(%q,nil,%v) yields keys %v: not in order / repeated", ctx, q.start, q.reverse, order)
+		}
+		for k := range got {
+			if _, ok := m[k]; !ok || !strings.HasPrefix(k, q.start) {
+				r.fail("%s: Iterator(%q,nil,%v) yields key %q, never written / outside the range", ctx, q.start, q.reverse, k)
+			}
+		}
+		for _, k := range plainFamily {
+			if !strings.HasPrefix(k, q.start) {
+				continue
+			}
+			want, found, _ := m.getV(k, top)
+			val, present := got[k]
+			if !m.hasTomb(k) {
+				if present != found || (found && val != want) {
+					r.fail("%s: Iterator(%q,nil,%v) has %q=%q present=%v, model %q present=%v", ctx, q.start, q.reverse, k, val, present, want, found)
+				}
+				continue
+			}
+			// a deletion lies in the key's live history: absent, empty, or any of the key's version-final values is accepted
+			// (see the package comment), an overwritten value is not
+			ok := !present || val == ""
+			for _, w := range m[k] {
+				ok = ok || (!w.tomb && w.val == val)
+			}
+			if !ok {
+				r.fail("%s: Iterator(%q,nil,%v) has %q=%q, which is not the final write of any live version (model %v)", ctx, q.start, q.reverse, k, val, m[k])
+			}
+		}
+	}
+}
+
 func runCase(t lib.TB, test string, c kase) *runner {
 	r := &runner{t: t, test: test, c: c}
 	r.stats.ntPairs = map[string]bool{}
@@ -301,8 +534,8 @@ func runCase(t lib.TB, test string, c kase) *runner {
 	defer s.close()
 	m := model{}
 	top := int64(-1)
-	var hashes [][]byte   // hash of every live version
-	var before [][]string // read table observed just before version i was added
+	var live []liveVersion // every live version
+	var before [][]string  // read table observed just before version i was added
 	seq := 0
 	last := r.readTable(s.mv, m, top, "empty store")
 	for r.step = 0; r.step < len(c.Ops); r.step++ {
@@ -312,42 +545,73 @@ func runCase(t lib.TB, test string, c kase) *runner {
 			before = append(before, last)
 			top++
 			seq++
+			lv := liveVersion{hash: hashOf(seq), via: o.Via}
 			var kvs []*types.KeyValue
-			for _, k := range o.Keys {
-				kvs = append(kvs, &types.KeyValue{Key: []byte(k), Value: []byte(tag(k, top))})
-				m[k] = append(m[k], write{top, tag(k, top)})
+			for pos, e := range o.Entries {
+				kvs = append(kvs, &types.KeyValue{Key: []byte(e.K), Value: e.value(top, pos)})
+				lv.keys = appendDistinct(lv.keys, e.K)
 			}
-			var prev []byte
-			if top > 0 {
-				prev = hashes[top-1]
-			}
-			h := hashOf(seq)
-			recs, err := s.mv.AddMVCC(kvs, h, prev, top)
-			if err != nil {
-				r.fail("AddMVCC(version %d) returned %v", top, err)
-			}
-			for _, kv := range recs {
-				if err := s.db.Set(kv.Key, kv.Value); err != nil {
-					lib.Inconclusive("db.Set: %v", err)
+			dup, ds, sd := m.apply(top, o.Entries)
+			r.stats.dup, r.stats.delThenSet, r.stats.setThenDel = r.stats.dup || dup, r.stats.delThenSet || ds, r.stats.setThenDel || sd
+			if o.Via == "setv" {
+				// direct API, as common/db's own tests use it: the version record, then one SetV per list entry in order
+				r.stats.setv = true
+				if err := s.mv.SetVersion(lv.hash, top); err != nil {
+					r.fail("SetVersion(version %d) returned %v", top, err)
 				}
+				for _, kv := range kvs {
+					if err := s.mv.SetV(kv.Key, kv.Value, top); err != nil {
+						r.fail("SetV(%q, version %d) returned %v", kv.Key, top, err)
+					}
+				}
+			} else {
+				var prev []byte
+				if top > 0 {
+					prev = live[top-1].hash
+				}
+				var recs []*types.KeyValue
+				var err error
+				if c.Iter {
+					recs, err = s.it.AddMVCC(kvs, lv.hash, prev, top)
+				} else {
+					recs, err = s.mv.AddMVCC(kvs, lv.hash, prev, top)
+				}
+				if err != nil {
+					r.fail("AddMVCC(version %d) returned %v", top, err)
+				}
+				s.write(recs)
 			}
-			hashes = append(hashes, h)
+			live = append(live, lv)
 		case "deltop":
-			recs, err := s.mv.DelMVCC(hashes[top], top, true)
-			if err != nil {
-				r.fail("DelMVCC(version %d, strict) returned %v", top, err)
-			}
-			for _, kv := range recs {
-				if err := s.db.Delete(kv.Key); err != nil {
-					lib.Inconclusive("db.Delete: %v", err)
+			lv := live[top]
+			if lv.via == "setv" {
+				for _, k := range lv.keys {
+					if err := s.mv.DelV([]byte(k), top); err != nil {
+						r.fail("DelV(%q, version %d) returned %v", k, top, err)
+					}
 				}
+				if err := s.mv.DelVersion(lv.hash); err != nil {
+					r.fail("DelVersion(version %d) returned %v", top, err)
+				}
+			} else {
+				var recs []*types.KeyValue
+				var err error
+				if c.Iter {
+					recs, err = s.it.DelMVCC(lv.hash, top, true)
+				} else {
+					recs, err = s.mv.DelMVCC(lv.hash, top, true)
+				}
+				if err != nil {
+					r.fail("DelMVCC(version %d, strict) returned %v", top, err)
+				}
+				s.write(recs)
 			}
 			for k, ws := range m {
 				if len(ws) > 0 && ws[len(ws)-1].ver == top {
 					m[k] = ws[:len(ws)-1]
 				}
 			}
-			hashes = hashes[:top]
+			live = live[:top]
 			top--
 			r.stats.deltops++
 		}
@@ -363,38 +627,52 @@ func runCase(t lib.TB, test string, c kase) *runner {
 			}
 			before = before[:len(before)-1]
 		}
+		if c.Iter {
+			r.iterTable(s, m, top, "after "+o.Op)
+		}
 		r.noteNonTrivial(m)
 	}
 	r.step = len(c.Ops) - 1
-	for cut := int64(0); cut <= top; cut++ {
-		r.trashAt(s, m.clone(), top, cut)
+	if !c.Iter {
+		for cut := int64(0); cut <= top; cut++ {
+			r.trashAt(s, m.clone(), top, cut)
+		}
 	}
 	return r
+}
+
+func appendDistinct(ks []string, k string) []string {
+	for _, x := range ks {
+		if x == k {
+			return ks
+		}
+	}
+	return append(ks, k)
 }
 
 func account(c kase, r *runner) {
 	lib.Eval()
 	lib.Class("backend=" + c.Backend)
 	lib.ClassN("reads", r.stats.reads)
-	if r.stats.deltops > 0 {
-		lib.Class("has_deltop")
-	}
-	if r.stats.trashDeleted > 0 {
-		lib.Class("trash_removed_records")
-	}
-	if r.stats.foreignTolerated > 0 {
-		lib.Class("known_getv_signature_tolerated")
-	}
-	if r.stats.trashTol > 0 {
-		lib.Class("known_trash_signature_tolerated")
+	lib.ClassN("iterator_reads", r.stats.iterReads)
+	lib.ClassN("reads_above_deletion_returning_older_value", r.stats.tombOlder)
+	lib.ClassN("reads_above_deletion_returning_notfound", r.stats.tombNotFound)
+	for label, on := range map[string]bool{"has_deltop": r.stats.deltops > 0, "trash_removed_records": r.stats.trashDeleted > 0,
+		"known_getv_signature_tolerated": r.stats.foreignTolerated > 0, "known_trash_signature_tolerated": r.stats.trashTol > 0,
+		"version_repeats_a_key": r.stats.dup, "version_delete_then_set": r.stats.delThenSet, "version_set_then_delete": r.stats.setThenDel,
+		"version_written_with_SetV": r.stats.setv, "mvcciter": c.Iter, "repeated_key_then_later_version_removed": r.stats.dup && r.stats.deltops > 0} {
+		if on {
+			lib.Class(label)
+		}
 	}
 	for p := range r.stats.ntPairs {
 		a, b, _ := strings.Cut(p, "|")
 		lib.Class("pair_next_char=" + string(b[len(a)]))
 	}
-	// non-triviality rule: some key is a proper prefix of another stored key followed by one of ". - ! , / 0-9" and is read at
-	// a version where the longer key has a write and the shorter has none (reads cover every key x version after every step)
-	if len(r.stats.ntPairs) > 0 {
+	// non-triviality rule: (a) some key is a proper prefix of another stored key followed by one of ". - ! , / 0-9" and is read at
+	// a version where the longer key has a write and the shorter has none, or (b) some version's write list names a key more
+	// than once (reads cover every key x version after every step)
+	if len(r.stats.ntPairs) > 0 || r.stats.dup {
 		lib.NonTrivialCase(c)
 	}
 }
@@ -407,12 +685,21 @@ func TestPropMVCCModel(t *testing.T) {
 	})
 }
 
+// TestPropMVCCIterModel: the same chains through MVCCIter (last-value records, Iterator reads, DelMVCC restoring them).
+func TestPropMVCCIterModel(t *testing.T) {
+	defer lib.Flush()
+	rapid.Check(t, func(t *rapid.T) {
+		c := genIterCase(t)
+		account(c, runCase(t, "TestPropMVCCIterModel", c))
+	})
+}
+
 // ---- pinned known findings --------------------------------------------------------------------------------------
 
 // TestKnown_GetVForeignKey: "k.0" written at version 0, "k" first written at version 1. GetV("k", 0) must be not-found.
 func TestKnown_GetVForeignKey(t *testing.T) {
 	defer lib.Flush()
-	c := kase{Backend: "memdb", Ops: []op{{Op: "add", Keys: []string{"k.0"}}, {Op: "add", Keys: []string{"k"}}}}
+	c := kase{Backend: "memdb", Ops: []op{keysOp("k.0"), keysOp("k")}}
 	s := buildPinned(c)
 	defer s.close()
 	got, err := s.mv.GetV([]byte("k"), 0)
@@ -426,14 +713,14 @@ func TestKnown_GetVForeignKey(t *testing.T) {
 // version of "k-".
 func TestKnown_TrashForeignNewest(t *testing.T) {
 	defer lib.Flush()
-	c := kase{Backend: "memdb", Ops: []op{{Op: "add", Keys: []string{"x"}}, {Op: "add", Keys: []string{"k-"}}, {Op: "add", Keys: []string{"k"}}}}
+	c := kase{Backend: "memdb", Ops: []op{keysOp("x"), keysOp("k-"), keysOp("k")}}
 	s := buildPinned(c)
 	defer s.close()
 	if err := s.mv.Trash(2); err != nil {
 		t.Fatalf("Trash: %v", err)
 	}
 	got, err := s.mv.GetV([]byte("k-"), 2)
-	if err != nil || string(got) != tag("k-", 1) {
+	if err != nil || string(got) != tag("k-", 1, 0) {
 		lib.KnownOrViolation(t, prop, "TestKnown_TrashForeignNewest", knownTrash, c,
 			fmt.Sprintf("after Trash(2) GetV(\"k-\",2) = %q err=%v: the newest (only) version of \"k-\", written at version 1, was removed as if it were an old version of \"k\"", got, err))
 	}
@@ -445,8 +732,8 @@ func buildPinned(c kase) *store {
 	var prev []byte
 	for v, o := range c.Ops {
 		var kvs []*types.KeyValue
-		for _, k := range o.Keys {
-			kvs = append(kvs, &types.KeyValue{Key: []byte(k), Value: []byte(tag(k, int64(v)))})
+		for pos, e := range o.Entries {
+			kvs = append(kvs, &types.KeyValue{Key: []byte(e.K), Value: e.value(int64(v), pos)})
 		}
 		h := hashOf(v + 1)
 		recs, err := s.mv.AddMVCC(kvs, h, prev, int64(v))
